@@ -79,3 +79,80 @@ pub proof fn lemma_enc_all_front(es: Seq<EntryAbs>)
     }
 }
 
+
+// ---- record-sequence round trip -----------------------------------------------------------------
+/// one unfolding of `parse`, with the BigSize reads given as facts (keeps cs_enc/cs_dec out of
+/// the solver's way in the induction below)
+pub proof fn lemma_parse_step(s: Seq<u8>, typ: u64, n1: nat, len: u64, n2: nat)
+    requires s.len() >= 2, cs_dec(s) == Some((typ, n1)), cs_dec(s.skip(n1 as int)) == Some((len, n2)),
+        s.skip(n1 as int).skip(n2 as int).len() >= len,
+    ensures parse(s) == (match parse(s.skip(n1 as int).skip(n2 as int).skip(len as int)) {
+        None => None::<Seq<EntryAbs>>,
+        Some(tail) => Some(seq![EntryAbs { typ, value: s.skip(n1 as int).skip(n2 as int).take(len as int) }] + tail),
+    })
+{}
+
+pub proof fn lemma_entry_prefix(e: EntryAbs, tail: Seq<u8>)
+    requires e.value.len() <= u64::MAX
+    ensures ({
+        let s = enc_entry(e) + tail;
+        let l = e.value.len() as u64;
+        let n1 = cs_enc(e.typ).len();
+        let n2 = cs_enc(l).len();
+        &&& s.len() >= 2
+        &&& cs_dec(s) == Some((e.typ, n1))
+        &&& cs_dec(s.skip(n1 as int)) == Some((l, n2))
+        &&& s.skip(n1 as int).skip(n2 as int) == e.value + tail
+    })
+{
+    let l = e.value.len() as u64;
+    let s = enc_entry(e) + tail;
+    let n1 = cs_enc(e.typ).len();
+    let n2 = cs_enc(l).len();
+    assert(n1 >= 1 && n2 >= 1);
+    assert(s =~= cs_enc(e.typ) + (cs_enc(l) + e.value + tail));
+    lemma_cs_roundtrip(e.typ, cs_enc(l) + e.value + tail);
+    assert(s.skip(n1 as int) =~= cs_enc(l) + (e.value + tail));
+    lemma_cs_roundtrip(l, e.value + tail);
+    assert(s.skip(n1 as int).skip(n2 as int) =~= e.value + tail);
+}
+
+/// C18: encoding then decoding reproduces the records
+pub proof fn lemma_parse_of_encoding(es: Seq<EntryAbs>)
+    requires forall|i: int| 0 <= i < es.len() ==> (#[trigger] es[i]).value.len() <= u64::MAX
+    ensures parse(enc_all(es)) == Some(es)
+    decreases es.len()
+{
+    if es.len() == 0 {
+        assert(enc_all(es) =~= Seq::<u8>::empty());
+    } else {
+        let e = es[0];
+        let rest_es = es.drop_first();
+        let tail = enc_all(rest_es);
+        lemma_enc_all_front(es);
+        let s = enc_all(es);
+        assert(s == enc_entry(e) + tail);
+        lemma_entry_prefix(e, tail);
+        let l = e.value.len() as u64;
+        let n1 = cs_enc(e.typ).len();
+        let n2 = cs_enc(l).len();
+        let r = s.skip(n1 as int).skip(n2 as int);
+        assert(r == e.value + tail);
+        assert(r.take(l as int) =~= e.value);
+        assert(r.skip(l as int) =~= tail);
+        assert forall|i: int| 0 <= i < rest_es.len() implies (#[trigger] rest_es[i]).value.len() <= u64::MAX by {
+            assert(rest_es[i] == es[i + 1]);
+        }
+        lemma_parse_of_encoding(rest_es);
+        lemma_parse_step(s, e.typ, n1, l, n2);
+        assert(seq![EntryAbs { typ: e.typ, value: e.value }] + rest_es =~= es);
+    }
+}
+/// C18: for every byte string that is an encoding (= every valid, minimally encoded TLV stream),
+/// decoding then encoding reproduces the input bytes exactly
+pub proof fn lemma_decode_then_encode(s: Seq<u8>, es: Seq<EntryAbs>)
+    requires s == enc_all(es), forall|i: int| 0 <= i < es.len() ==> (#[trigger] es[i]).value.len() <= u64::MAX
+    ensures parse(s) == Some(es) && enc_all(parse(s)->0) == s
+{
+    lemma_parse_of_encoding(es);
+}
